@@ -58,6 +58,7 @@ impl Rng {
 
     #[inline]
     pub fn range(&mut self, lo: u64, hi_inclusive: u64) -> u64 {
+        assert!(lo <= hi_inclusive, "harness: empty range {}..={}", lo, hi_inclusive);
         lo + self.below(hi_inclusive - lo + 1)
     }
 
